@@ -115,7 +115,9 @@ func (x *Exec) installBasesA(st *State, key string, t types.Type, tag string, al
 			a, o, l, cp := hs[i].base, hs[i+1].base, hs[i+2].base, hs[i+3].base
 			f := func(args []string) string {
 				r := args[0]
-				return sliceFact(sSel(a, r), sSel(o, r), sSel(l, r), sSel(cp, r), al)
+				// the allocation bound holds for objects that existed when this array version was created; objects allocated
+				// later (by callees) may hold newer references
+				return sAnd(sliceFact(sSel(a, r), sSel(o, r), sSel(l, r), sSel(cp, r), ""), sImp(sLe(r, al), sLe(sSel(a, r), al)))
 			}
 			for _, s := range []string{a, l, cp, o} {
 				x.decls.Pat("sel1:"+s, f)
@@ -126,7 +128,13 @@ func (x *Exec) installBasesA(st *State, key string, t types.Type, tag string, al
 		if x.rangeFact("t", c, al) != "true" {
 			base := hs[i].base
 			cc := c
-			x.decls.Pat("sel1:"+base, func(args []string) string { return x.rangeFact(sSel(base, args[0]), cc, al) })
+			x.decls.Pat("sel1:"+base, func(args []string) string {
+				f := x.rangeFact(sSel(base, args[0]), cc, al)
+				if cc.K == KRef {
+					return sImp(sLe(args[0], al), f)
+				}
+				return f
+			})
 		}
 	}
 	x.keyTypes[key] = t
@@ -158,6 +166,7 @@ func (x *Exec) readComps(st *State, key string, t types.Type, ref string) Val {
 	if t == mathInt {
 		return Val{K: KInt, T: types.Typ[types.UntypedInt], S: terms[0]}
 	}
+	x.readTimeFacts(st, t, terms)
 	return unflatten(t, terms)
 }
 
@@ -340,7 +349,11 @@ func (x *Exec) elemBaseFacts(base []string, cs []Comp, allocTerm string) {
 			b0, b1, b2, b3 := base[i], base[i+1], base[i+2], base[i+3]
 			f := func(args []string) string {
 				rd := func(b string) string { return sSel(sSel(b, args[0]), args[1]) }
-				return sliceFact(rd(b0), rd(b1), rd(b2), rd(b3), allocTerm)
+				g := sliceFact(rd(b0), rd(b1), rd(b2), rd(b3), "")
+				if allocTerm != "" {
+					g = sAnd(g, sImp(sLe(args[0], allocTerm), sLe(rd(b0), allocTerm)))
+				}
+				return g
 			}
 			for k := i; k < i+4; k++ {
 				x.decls.Pat("sel2:"+base[k], f)
@@ -351,7 +364,13 @@ func (x *Exec) elemBaseFacts(base []string, cs []Comp, allocTerm string) {
 		if x.rangeFact("t", c, allocTerm) != "true" {
 			b0 := base[i]
 			cc := c
-			x.decls.Pat("sel2:"+b0, func(args []string) string { return x.rangeFact(sSel(sSel(b0, args[0]), args[1]), cc, allocTerm) })
+			x.decls.Pat("sel2:"+b0, func(args []string) string {
+				f := x.rangeFact(sSel(sSel(b0, args[0]), args[1]), cc, allocTerm)
+				if cc.K == KRef && allocTerm != "" {
+					return sImp(sLe(args[0], allocTerm), f)
+				}
+				return f
+			})
 		}
 	}
 }
@@ -367,6 +386,7 @@ func (x *Exec) elemReadAbs(st *State, key string, et types.Type, arr, idx string
 			*x.idxLog = append(*x.idxLog, it)
 		}
 	}
+	x.readTimeFacts(st, et, terms)
 	return unflatten(et, terms)
 }
 
@@ -509,7 +529,13 @@ func (x *Exec) mapValArr(st *State, mt types.Type, c Comp) *HArr {
 		if st.epoch < 0 {
 			al = st.alloc
 		}
-		x.decls.Pat("sel2:"+base, func(args []string) string { return x.rangeFact(sSel(sSel(base, args[0]), args[1]), c, al) })
+		x.decls.Pat("sel2:"+base, func(args []string) string {
+			f := x.rangeFact(sSel(sSel(base, args[0]), args[1]), c, al)
+			if c.K == KRef {
+				return sImp(sLe(args[0], al), f)
+			}
+			return f
+		})
 	}
 	return h
 }
@@ -737,4 +763,15 @@ func (x *Exec) injective(fn string) {
 	x.decls.Pat("app:"+fn, func(args []string) string {
 		return sEq("("+fn+".inv ("+fn+" "+args[0]+"))", args[0])
 	})
+}
+
+// readTimeFacts: every reference stored in the heap at the moment of a read was allocated before that moment
+func (x *Exec) readTimeFacts(st *State, t types.Type, terms []string) {
+	for i, c := range compsOf(t) {
+		if (c.K == KRef && c.Role == "") || c.Role == "arr" {
+			if len(terms[i]) < 400 && !strings.Contains(terms[i], "?") && !isNumLit(terms[i]) {
+				st.assume(sLe(terms[i], st.alloc))
+			}
+		}
+	}
 }
